@@ -1808,7 +1808,7 @@ class Tag(PageElement):
             self.name,
             self.namespace,
             self.prefix,
-            self.attrs,
+            None,
             is_xml=self._is_xml,
             sourceline=self.sourceline,
             sourcepos=self.sourcepos,
@@ -1820,6 +1820,19 @@ class Tag(PageElement):
         )
         for attr in ("can_be_empty_element", "hidden"):
             setattr(clone, attr, getattr(self, attr))
+
+        # The clone has exactly the attributes of the original, in a
+        # container of the same class. The values are not passed to
+        # the constructor, which would pour them through
+        # HTMLAttributeDict or XMLAttributeDict and drop or rewrite
+        # values such as None, booleans and numbers. The values of
+        # multi-valued attributes are stored in new lists.
+        attrs = self.attrs.__class__()
+        for k, v in self.attrs.items():
+            if isinstance(v, list):
+                v = v.__class__(v)
+            dict.__setitem__(attrs, k, v)
+        clone.attrs = attrs
         return clone
 
     @property
